@@ -105,4 +105,91 @@ theorem C04_reopen_stable :
     ∃ fs v c, recover tenv tg (applyAll timg tws) = .ok fs 0 v c :=
   ⟨toy_is_recovery_run.complete, toy_is_recovery_run.settled⟩
 
+/-! ### what does hold: the in-place recovery never touches the committed payload region -/
+
+section Preserved
+variable {β : Type}
+
+/-- a syscall that leaves the cells `[H, E)` alone: a write at or above `E`, a write inside the first
+    `H` cells (header, log region), a truncation to at least `E`, an fsync -/
+def Above (E H : Nat) : Sys β → Prop
+  | .pwrite _ off w => E ≤ off ∨ off + w.length ≤ H
+  | .ftruncate _ n => E ≤ n
+  | _ => True
+
+instance (E H : Nat) (s : Sys β) : Decidable (Above E H s) := by
+  cases s <;> simp only [Above] <;> infer_instance
+
+theorem padTo_take (z : β) (b : List β) (n E : Nat) (hE : E ≤ b.length) : (padTo z b n).take E = b.take E := by
+  simp [padTo, List.take_append_of_le_length hE]
+
+theorem contentStep_above (z : β) (E H : Nat) (hH : H ≤ E) (b : List β) (hE : E ≤ b.length) (s : Sys β)
+    (hs : Above E H s) :
+    E ≤ (contentStep z b s).length ∧ ((contentStep z b s).take E).drop H = (b.take E).drop H := by
+  cases s with
+  | pwrite i off w =>
+    simp only [contentStep]
+    rcases hs with h | h
+    · -- above E
+      have hl : off + w.length ≤ (padTo z b (off + w.length)).length := by simp [padTo]; omega
+      have hto : ((padTo z b (off + w.length)).take off).length = off := by simp; omega
+      constructor
+      · simp [pwriteL]; omega
+      · unfold pwriteL
+        rw [List.append_assoc, List.take_append_of_le_length (by omega), List.take_take,
+            Nat.min_eq_left h, padTo_take z b _ E hE]
+    · -- inside the header
+      have hle : off + w.length ≤ b.length := by omega
+      have hp : padTo z b (off + w.length) = b := by
+        have : off + w.length - b.length = 0 := by omega
+        simp [padTo, this]
+      have hlen : (pwriteL z b off w).length = b.length := by
+        unfold pwriteL; rw [hp]; simp; omega
+      constructor
+      · omega
+      · rw [List.drop_take, List.drop_take]
+        congr 1
+        unfold pwriteL
+        rw [hp]
+        have hx : (b.take off ++ w).length = off + w.length := by simp; omega
+        have e : H = (b.take off ++ w).length + (H - (off + w.length)) := by omega
+        rw [e, ← List.drop_drop, List.drop_left, List.drop_drop]
+        congr 1
+        omega
+  | ftruncate i n =>
+    simp only [contentStep, truncL]
+    have hn : E ≤ n := hs
+    constructor
+    · simp [padTo]; omega
+    · have : (padTo z (b.take n) n).take E = b.take E := by
+        rw [padTo_take z _ _ E (by simp; omega), List.take_take, Nat.min_eq_left hn]
+      rw [this]
+  | create a i => exact ⟨hE, rfl⟩
+  | fsync i => exact ⟨hE, rfl⟩
+  | rename a c => exact ⟨hE, rfl⟩
+  | unlink a => exact ⟨hE, rfl⟩
+  | fsyncDir => exact ⟨hE, rfl⟩
+
+/-- **C04, partial** — for ANY list of in-place syscalls that stay at or above `E` (or inside the
+    header) and EVERY prefix: the cells `[H, E)` of the file are unchanged.  With `H` = header size and
+    `E` = end of the committed payload region this is what `recover_wal` does (replayed payloads at
+    `data_end ≥ E`, truncation to `max(footer_offset, payload_end) ≥ E`, segments / TOC / footer
+    behind that, header rewrites in `[0, H)`): an interrupted recovery can destroy the TOC, never a
+    committed payload or the log region — the data needed to rebuild stays on disk. -/
+theorem C04_payloads_preserved (z : β) (E H : Nat) (hH : H ≤ E) :
+    ∀ (ws : List (Sys β)) (b : List β), E ≤ b.length → (∀ s ∈ ws, Above E H s) →
+      ∀ k, (((ws.take k).foldl (contentStep z) b).take E).drop H = (b.take E).drop H
+  | [], b, _, _, k => by simp
+  | s :: ws, b, hE, h, 0 => by simp
+  | s :: ws, b, hE, h, k+1 => by
+    have hs := contentStep_above z E H hH b hE s (h s (by simp))
+    have ih := C04_payloads_preserved z E H hH ws (contentStep z b s) hs.1 (fun x hx => h x (by simp [hx])) k
+    simp only [List.take_succ_cons, List.foldl_cons]
+    rw [ih, hs.2]
+
+/-- the toy recovery is such a list (H = 8 = end of header + log region, E = 10 = end of the committed payloads) -/
+example : ∀ s ∈ tws, Above 10 8 s := by decide
+
+end Preserved
+
 end Mv.Crash
